@@ -28,7 +28,7 @@ class C13Run(E2Run):
     prop = "C13"
 
     def profile(self) -> Dict:
-        return {"topologies": ["lan", "routed"], "max_hosts_per_subnet": 2, "tight_links": 0.0, "random_acl_rules": (0, 0), "permit_all_rule": 1.0, "use_defaults_block": 0.7, "avoid": ["listen_on_ports", "routing_loop"]}
+        return {"topologies": ["lan", "routed"], "max_hosts_per_subnet": 2, "tight_links": 0.0, "random_acl_rules": (0, 0), "permit_all_rule": 1.0, "use_defaults_block": 0.7, "avoid": ["listen_on_ports"]}
 
     def after_build(self):
         from primaite.simulator.system.core.software_manager import SoftwareManager
